@@ -80,6 +80,24 @@ class Pool(object):
         self.opx = x
         self.op = op(-4 * x[0] - 5 * x[1], [2 * x[0] + x[1] <= 3, x[0] + 2 * x[1] <= 3, x >= 0])
         s = solvers
+        # valid start points (strictly interior slacks / multipliers); also part of the fingerprint
+        eall = m([1., 1., 1., 1., 1., 0., 0., 1., 0., 0., 1.])
+        st = {"ps_all": {"x": m([0.1, 0.1]), "s": 2 * eall}, "ds_all": {"y": m(0.0, (0, 1)), "z": +eall},
+              "ps_lp": {"x": m([0.1, 0.1]), "s": m([1., 1., 1., 1.])}, "ds_lp": {"y": m(0.0, (0, 1)), "z": m([1., 1., 1., 1.])},
+              "ps_socp": {"x": m([0.1, 0.1]), "sl": m([1., 1., 1., 1.]), "sq": [m([1., 0., 0.])]},
+              "ds_socp": {"y": m(0.0, (0, 1)), "zl": m([1., 1., 1., 1.]), "zq": [m([1., 0., 0.])]},
+              "ps_sdp": {"x": m([0.1, 0.1]), "sl": m([1., 1., 1., 1.]), "ss": [m([[1., 0.], [0., 1.]])]},
+              "ds_sdp": {"y": m(0.0, (0, 1)), "zl": m([1., 1., 1., 1.]), "zs": [m([[1., 0.], [0., 1.]])]},
+              "iv_all": {"x": m([0.1, 0.1]), "s": 2 * eall, "z": +eall},
+              "iv_qp": {"x": m([0.5, 1.0]), "s": m([1., 1., 1., 1.]), "z": m([1., 1., 1., 1.]), "y": m([0.5])}}
+        self.starts = st
+        for name, dct in st.items():
+            for kk, vv in dct.items():
+                if isinstance(vv, list):
+                    for i_, v_ in enumerate(vv):
+                        self.inputs["%s.%s.%d" % (name, kk, i_)] = v_
+                else:
+                    self.inputs["%s.%s" % (name, kk)] = vv
         self.calls = {
             "conelp": lambda kw: s.conelp(c, Gall, hall, dims, **kw),
             "lp": lambda kw: s.lp(c, G, h, **kw),
@@ -93,6 +111,11 @@ class Pool(object):
             "op": lambda kw: self._solve_op(kw),
         }
         self.lonly = {"lp", "qp", "cpl", "cp", "gp", "op"}
+        self.start_kw = {"conelp": {"primalstart": st["ps_all"], "dualstart": st["ds_all"]},
+                         "lp": {"primalstart": st["ps_lp"], "dualstart": st["ds_lp"]},
+                         "socp": {"primalstart": st["ps_socp"], "dualstart": st["ds_socp"]},
+                         "sdp": {"primalstart": st["ps_sdp"], "dualstart": st["ds_sdp"]},
+                         "coneqp": {"initvals": st["iv_all"]}, "qp": {"initvals": st["iv_qp"]}}
 
     def _solve_op(self, kw):
         self.op.solve(**kw)
@@ -159,7 +182,7 @@ def _pool():
     return _P
 
 
-def do_call(P, entry, glob, per, use_per):
+def do_call(P, entry, glob, per, use_per, variant=0):
     """perform one call under the recorder; returns an observation dict"""
     from harness import solverrec
     s = P.solvers
@@ -169,12 +192,31 @@ def do_call(P, entry, glob, per, use_per):
     gimg = repr(sorted(s.options.items(), key=lambda kv: kv[0]))
     kw = {}
     perd = None
+    quiet = False
     if use_per:
-        perd = dict(concrete(per), show_progress=False)
+        perd = dict(concrete(per))
+        if perd or not variant % 2:
+            perd["show_progress"] = False
+        else:
+            quiet = True            # the EMPTY per-call dictionary {} is a per-call dictionary too (defaults in force)
         kw["options"] = perd
+    use_start = (variant // 2) % 2 == 1 and entry in P.start_kw
+    if use_start:
+        kw.update(P.start_kw[entry])
     pimg = repr(sorted(perd.items())) if perd is not None else None
     fp0 = P.fingerprint()
-    events, res, exc, rec = solverrec.record(entry if entry != "op" else "lp", P.calls[entry], (kw,), {}, 100)
+    if quiet:
+        sys.stdout.flush()
+        saved = os.dup(1)
+        dn = os.open(os.devnull, os.O_WRONLY)
+        os.dup2(dn, 1)
+    try:
+        events, res, exc, rec = solverrec.record(entry if entry != "op" else "lp", P.calls[entry], (kw,), {}, 100)
+    finally:
+        if quiet:
+            sys.stdout.flush()
+            os.dup2(saved, 1)
+            os.close(saved); os.close(dn)
     obs = {"exc": type(exc).__name__ if exc is not None else "none", "nkkt": rec.nf + rec.ns,
            "msg": str(exc)[:80] if exc is not None else ""}
     if rec.raw_iters:
@@ -182,6 +224,7 @@ def do_call(P, entry, glob, per, use_per):
         obs["inforce"] = {k: f[k] for k in ("maxiters", "abstol", "reltol", "feastol", "refinement")}
         obs["iters"] = rec.raw_iters[-1]["iters"]
     obs["hash"] = result_hash(res) if res is not None else None
+    obs["use_start"] = use_start
     obs["status"] = res["status"] if res is not None else None
     obs["inputs_unchanged"] = P.fingerprint() == fp0
     obs["global_unchanged"] = repr(sorted(s.options.items(), key=lambda kv: kv[0])) == gimg
@@ -194,9 +237,9 @@ def do_call(P, entry, glob, per, use_per):
 def _replay_chunk(job):
     P = _pool()
     out = []
-    for glob, entry, per, use_per, exp in job:
+    for k_, (glob, entry, per, use_per, exp) in enumerate(job):
         try:
-            obs = do_call(P, entry, glob, per, use_per)
+            obs = do_call(P, entry, glob, per, use_per, variant=k_)
         except Exception as e:
             out.append({"harness_error": repr(e), "entry": entry})
             continue
@@ -385,7 +428,7 @@ UP == [c \\in Callers |-> %s]
                                      "%s acted on %s instead of the %s options %s" % (entry, {k: got[k] for k in diff}, which, {k: want[k] for k in diff}), x)
                     if o["iters"] > want["maxiters"]:
                         ck.violation("%s|maxiters-exceeded" % entry, "%s ran %d iterations with maxiters=%s" % (entry, o["iters"], want["maxiters"]), x)
-                hk = (entry, json.dumps(exp["inforce"], sort_keys=True))
+                hk = (entry, json.dumps(exp["inforce"], sort_keys=True), o.get("use_start"))
                 if hk in hashes and hashes[hk] != o["hash"]:
                     ck.violation("%s|not-repeatable" % entry, "%s returned different bits for the same problem and options after a different history" % entry, x)
                 hashes.setdefault(hk, o["hash"])
